@@ -229,6 +229,72 @@ Fixpoint py_lt (v w : pyval) {struct v} : result bool :=
 
 Definition py_sorted (l : list pyval) : result (list pyval) := py_sort py_lt l.
 
+(* ---------- the canonical sort key: pipefunc.cache._sort_key ----------
+   A total order on hashable values that does not depend on insertion order or hash seed; to_hashable sorts set
+   elements and mapping keys by it.  A key is the Python tuple (tag, payload): ("number", x) | ("str", s) |
+   ("bytes", b) | ("None",) | ("tuple", (keys..)) | ("frozenset", (sorted keys..)) | ("~" + type name, repr).
+   CK tag payload kids: tag and payload as code sequences (for a number the one-element sequence [4*value]),
+   kids for the recursive cases.  ck_ltb is Python's < on these tuples: first the tags (str <), then the
+   payloads (number / str / bytes <), then the kids lexicographically (tuple <). *)
+Inductive ck := CK (tag : list Z) (payload : list Z) (kids : list ck).
+
+Fixpoint ck_eqb (a b : ck) {struct a} : bool :=
+  match a, b with
+  | CK t p ks, CK t' p' ks' =>
+      list_eqb Z.eqb t t' && list_eqb Z.eqb p p'
+      && (fix eqk (l l' : list ck) : bool :=
+            match l, l' with
+            | [], [] => true
+            | x :: r, y :: r' => ck_eqb x y && eqk r r'
+            | _, _ => false
+            end) ks ks'
+  end.
+
+Fixpoint ck_ltb (a b : ck) {struct a} : bool :=
+  match a, b with
+  | CK t p ks, CK t' p' ks' =>
+      lex_ltb t t'
+      || (list_eqb Z.eqb t t'
+          && (lex_ltb p p'
+              || (list_eqb Z.eqb p p'
+                  && (fix lexk (l l' : list ck) : bool :=
+                        match l, l' with
+                        | _, [] => false
+                        | [], _ :: _ => true
+                        | x :: r, y :: r' => ck_ltb x y || (ck_eqb x y && lexk r r')
+                        end) ks ks')))
+  end.
+
+(* sorted(keys) on a list of keys (a total order: any correct sort gives this list) *)
+Fixpoint ck_insert (x : ck) (l : list ck) : list ck :=
+  match l with
+  | [] => [x]
+  | y :: t => if ck_ltb y x then y :: ck_insert x t else x :: l
+  end.
+Definition ck_sort (l : list ck) : list ck := fold_right ck_insert [] l.
+
+Definition tg (x : string) : list Z := codes (s x).
+Arguments tg x%string.
+
+Fixpoint ckey (v : pyval) : ck :=
+  match v with
+  | PA a =>
+      match a with
+      | AInt _ | ABool _ | AFloat _ => CK (tg "number") (match numval a with Some z => [z] | None => [] end) []
+      | AStr x => CK (tg "str") (codes x) []
+      | ABytes x => CK (tg "bytes") (codes x) []
+      | ANone => CK (tg "None") [] []
+      | AType n => CK (tg "~type") (codes n) []          (* repr(<class 'n'>) *)
+      | _ => CK (tg "~") [] []                             (* unhashable or key-only atoms: never sorted *)
+      end
+  | PSeq KTuple l => CK (tg "tuple") [] (map ckey l)
+  | PSetv _ l => CK (tg "frozenset") [] (ck_sort (map ckey l))
+  | _ => CK (tg "~") [] []                                 (* unhashable: never a set element or a dict key *)
+  end.
+
+(* the comparison sorted(..., key=_sort_key) performs on two elements: never raises *)
+Definition key_lt (a b : pyval) : result bool := Ok (ck_ltb (ckey a) (ckey b)).
+
 (* ---------- well-formed values: what can exist as a Python object of these types ---------- *)
 Fixpoint nodup_by {A} (eqb : A -> A -> bool) (l : list A) : bool :=
   match l with [] => true | x :: t => negb (existsb (eqb x) t) && nodup_by eqb t end.
@@ -272,6 +338,7 @@ Definition known_factories : list str := [s "int"; s "list"; s "dict"; s "set"; 
 Fixpoint wf (v : pyval) : bool :=
   match v with
   | PA AMasked => false
+  | PA (ADigest _ _) => false             (* a digest only occurs inside keys *)
   | PA _ => true
   | PSeq k l =>
       match k with
